@@ -201,7 +201,11 @@ FnReturn(m, v) ==
       withRet == IF Tail(t) = <<>> THEN m1
                  ELSE LET c == Head(Tail(t)) IN SetAct(m1, [c EXCEPT !.temps = Put(c.temps, "$ret", v)])
       ev == IF a.cont.mode \in {"printexpr", "setexpr", "tempexpr"} THEN Eval(withRet, a.cont.e) ELSE v IN
-  CASE a.cont.mode = "print" -> IF v.t = "void" THEN m1 ELSE Emit(m1, O!T(ValChars(v)))
+  CASE a.cont.mode = "game" ->
+         \* a function evaluation started by the host: nothing is trimmed, the frame stays (without position) until the
+         \* host has taken the result
+         [SetThread(m, <<[a EXCEPT !.fr = <<>>]>> \o Tail(t)) EXCEPT !.ret = v, !.st = "stopping", !.safe = TRUE]
+    [] a.cont.mode = "print" -> IF v.t = "void" THEN m1 ELSE Emit(m1, O!T(ValChars(v)))
     [] a.cont.mode = "set" -> Assign(m1, a.cont.x, v)
     [] a.cont.mode = "printexpr" -> IF ev.t = "error" THEN Fail(m1, ev.v) ELSE Emit(m1, O!T(ValChars(ev)))
     [] a.cont.mode = "setexpr" -> IF ev.t = "error" THEN Fail(m1, ev.v) ELSE Assign(m1, a.cont.x, ev)
@@ -216,7 +220,7 @@ PopFrame(m) ==
       a == Head(t) IN
   IF Len(a.fr) > 1 THEN SetAct(m, [a EXCEPT !.fr = Tail(a.fr)])
   ELSE \* the activation has run out of content
-       IF a.kind = "fn" THEN FnReturn(m, [t |-> "void"])      \* implicit return of a function: void
+       IF a.kind \in {"fn", "game"} THEN FnReturn(m, [t |-> "void"])      \* implicit return of a function: void
        ELSE \* out of content (in a tunnel, too: nothing returns implicitly): a forked thread gives way to the thread
             \* below it, otherwise the flow stops - an error unless choices are on offer (Settle)
             IF Len(m.th) > 1 THEN [m EXCEPT !.th = Tail(m.th)]
@@ -262,7 +266,7 @@ Exec(m, s) ==
                                   fnStart0 |-> Len(m.out) + 1, cont |-> [mode |-> s.mode, x |-> s.x, e |-> s.e], prev |-> <<>>] IN
                       IF \E i \in 1..Len(vals) : vals[i].t = "error" THEN Fail(m, "argument")
                       ELSE SetThread(m1, <<act>> \o CurThread(m1))
-    [] s.k = "ret" -> IF CurAct(m).kind # "fn" THEN Fail(m, "return outside a function")
+    [] s.k = "ret" -> IF CurAct(m).kind \notin {"fn", "game"} THEN Fail(m, "return outside a function")
                       ELSE LET v == IF s.e.k = "void" THEN [t |-> "void"] ELSE Eval(m, s.e) IN
                            IF v.t = "error" THEN Fail(m, v.v) ELSE FnReturn(m, v)
     [] s.k = "temp" -> LET v == Eval(m, s.e)
